@@ -32,7 +32,7 @@ ASSUMPTIONS = [
     "None), so the library's text-to-type guessing is not involved",
 ]
 
-VALUES = ["z", 7, 2.5, True, None]
+VALUES = ["z", 7, 2.5, True, None, -7.5, -3, 0, ""]
 DOCS = []
 PATHS1 = []
 PATHS2 = []
@@ -126,6 +126,10 @@ def run_shard(shard):
         for segs, ptext in PATHS2:
             for value in VALUES[:2]:
                 check_set(st, doc0, text, shp, segs, ptext, value)
+        for base in (("key", "a"), ("key", "b"), ("idx", 0), ("idx", 1)):
+            for sub in ((), (("key", "a"),), (("key", "b"),), (("key", "x"),)):
+                for newname in ("z", "a", "b"):
+                    check_rename(st, doc0, text, shp, (base,) + sub, newname)
         if di == lo:
             st.sample({"doc": text, "op": "set", "path": PATHS2[7][1],
                        "value": "z"})
@@ -173,6 +177,65 @@ def check_set(st, doc0, text, shp, segs, ptext, value, doc=None):
                 bad)
         return None
     return doc
+
+
+def check_rename(st, doc0, text, shp, segs, newname):
+    """Setting <path>[name()] renames the key the node is held under: same
+    value, same position among its siblings, nothing else changed; a name that
+    already exists in the parent is refused and changes nothing."""
+    try:
+        ctxs = refedit.matched(doc0, segs)
+    except Exception:                     # pylint: disable=broad-except
+        return
+    if len(ctxs) != 1 or not corpus.is_map(ctxs[0].parent) \
+            or not isinstance(ctxs[0].ref, str):
+        return
+    ctx = ctxs[0]
+    st.evaluations += 1
+    st.transitions += 1
+    st.validated += 1
+    ptext = paths.render(segs + (("kw", "name", (), False),), "/")
+    case = {"doc": text, "op": "rename", "path": ptext, "segs": segs,
+            "value": newname}
+    doc = editrun.fresh(doc0)
+    before = corpus.canon(doc, anchors=True)
+    res, detail = editrun.apply_set(doc, ptext, newname, mustexist=True)
+    got = corpus.canon(doc, anchors=True)
+    st.outcomes["rename:" + res] += 1
+    if newname in ctx.parent:
+        if res != "ype":
+            st.fail("rename|existing-name-not-refused", case,
+                    "a YAML Path error", "%s %s" % (res, detail))
+        elif got != before:
+            st.fail("rename|refused-but-changed", case, "unchanged", "changed")
+        return
+    if res != "ok":
+        st.fail("rename|%s:%s" % (res, detail), case, "key renamed",
+                "%s %s" % (res, detail))
+        return
+    st.states += 1
+    st.sig(shp, "rename", len(segs), newname)
+
+    def renamed(node, pos):
+        if corpus.is_map(node):
+            items = []
+            for k, v in node.items():
+                kc = corpus.canon(k, True)
+                if pos == ctx.pos[:-1] and k == ctx.ref:
+                    kc = ("str", newname)
+                items.append((kc, renamed(v, pos + (k,))))
+            return refedit.wrap(node, ("m", tuple(items)), True)
+        if corpus.is_list(node):
+            return refedit.wrap(node, ("l", tuple(
+                renamed(v, pos + (i,)) for i, v in enumerate(node))), True)
+        return corpus.canon(node, True)
+    want = renamed(doc0, ())
+    if got != want:
+        st.fail("rename|wrong-document", case, short(want), short(got))
+        return
+    bad = editrun.reload_check(doc)
+    if bad:
+        st.fail("rename|reload", case, "dump reloads to the same data", bad)
 
 
 def scalars_only(doc0, segs):
@@ -300,7 +363,9 @@ def replay(case):
                 editrun.apply_set(doc, ptext, val, mustexist=(op == "set"))
     else:
         doc = corpus.load(case["doc"])
-    if case["op"] == "set":
+    if case["op"] == "rename":
+        check_rename(st, doc, case["doc"], "?", segs, case["value"])
+    elif case["op"] == "set":
         check_set(st, doc, case["doc"], "?", segs, case["path"],
                   case["value"])
     elif case["op"] == "delete":
